@@ -250,6 +250,31 @@ Fixpoint add_to_group (k : inst) (p : perm) (g : list (inst * list perm)) : list
 Definition group_cases (order : list perm) : list (inst * list perm) :=
   fold_left (fun g p => add_to_group (server_instance p) p g) order [].
 
+(* ---------- serverInstancesSlice(lib, sorted = true) (connectconformance.go): the keys of
+   casesByServer, sort.Slice'd by HTTP version, protocol, TLS (without first), client certs
+   (without first).  The less function is Go's, clause by clause; the keys of a map are pairwise
+   distinct, so any correct sorting algorithm returns the same slice (C07_Order.v). ---------- *)
+Definition inst_less (a b : inst) : bool :=
+  if negb (i_version a =? i_version b) then i_version a <? i_version b
+  else if negb (i_protocol a =? i_protocol b) then i_protocol a <? i_protocol b
+  else if negb (Bool.eqb (i_tls a) (i_tls b)) then negb (i_tls a)
+  else negb (i_certs a) || i_certs b.
+
+Fixpoint insert_inst (k : inst) (l : list inst) : list inst :=
+  match l with
+  | [] => [k]
+  | k' :: r => if inst_less k k' then k :: l else k' :: insert_inst k r
+  end.
+Definition sort_insts (l : list inst) : list inst := fold_right insert_inst [] l.
+Definition sorted_instances (order : list perm) : list inst := sort_insts (map fst (group_cases order)).
+
+(* how many names of a list are issued a second (third ...) time *)
+Fixpoint dup_count (l : list bytes) : nat :=
+  match l with
+  | [] => O
+  | x :: r => ((if mem_bytes x r then 1 else 0) + dup_count r)%nat
+  end.
+
 (* ---------- filterGRPCImplTestCases / addGRPCMarkerToName / allPermutations ---------- *)
 Definition grpc_keep (cl sv : bool) (p : perm) : bool :=
   if (cl && negb (p_protocol p =? 2)) || (p_protocol p =? 1) then false else
@@ -359,7 +384,9 @@ Definition run_c07_lib (args : list sx) : sx :=
                L (map B (sort_bytes (map p_name (all_permutations true true lib))));
                sx_nat (length (all_permutations false false lib));
                sx_nat (length (all_permutations true false lib));
-               sx_nat (length (all_permutations false true lib)) ]
+               sx_nat (length (all_permutations false true lib));
+               L (map sx_inst (sorted_instances lib));
+               sx_nat (dup_count (map p_name (all_permutations true true lib))) ]
          end)
   | _ => None end).
 
